@@ -177,9 +177,40 @@ def run_cases():
     finally:
         if g is not None:
             g.cleanup()
+    # configured scalars in builder arguments - also a built-in scalar that the configuration maps to another type
+    g = None
+    try:
+        g = generate_client(SCHEMA_SCALAR_ARGS, None, enable_custom_operations=True,
+                            scalars={"ID": {"type": "str", "serialize": "json.dumps"}, "Stamp": {"type": "str", "serialize": "json.dumps"}})
+        pkg, cf, cq = g.module(), g.module("custom_fields"), g.module("custom_queries")
+        schema = G.build_schema(SCHEMA_SCALAR_ARGS)
+        for name, build, expect in (
+                ("configured-builtin-scalar-argument-goes-through-its-serialize", lambda: [cq.Query.item(id="7", at="u", n=3).fields(cf.ItemFields.name)], ['"7"', '"u"', 3]),
+                ("configured-custom-scalar-argument-next-to-plain-ones", lambda: [cq.Query.item(id="8", at="t", n=0, label="l").fields(cf.ItemFields.name)], ['"8"', '"t"', 0, "l"])):
+            try:
+                payload = _run(pkg, build())
+                problems = _check_document(schema, payload, expect)
+            except Exception as e:   # noqa
+                problems = [f"{type(e).__name__}: {str(e)[:200]}"]
+            rep["outcome"][name] = problems or "ok"
+            if problems:
+                rep["cases"].append(name)
+    except Exception as e:   # noqa
+        rep["outcome"]["generation-scalar-arguments"] = f"{type(e).__name__}: {str(e)[:300]}"
+        rep["cases"].append("generation-scalar-arguments")
+    finally:
+        if g is not None:
+            g.cleanup()
     if rep["cases"]:
         rep["failed"].append("bounded.builder-documents")
     return rep
+
+
+SCHEMA_SCALAR_ARGS = """
+scalar Stamp
+type Item { name: String }
+type Query { item(id: ID!, at: Stamp!, n: Int, label: String): Item }
+"""
 
 
 def bounded_builder(tier, seed):
